@@ -18,6 +18,7 @@ import (
 	"fmt"
 	"os"
 	"strings"
+	"sync"
 	"time"
 
 	"golang.org/x/net/idna"
@@ -216,6 +217,23 @@ func Known(id string, inClass bool) {
 	if inClass {
 		Knowns = append(Knowns, id)
 	}
+}
+
+// Concurrently runs f as the operation under observation for C14. Under the engine f is
+// executed once with the shared-state write monitor on: any store to an object that existed
+// before the call ends the path as a violation candidate (a sequential sufficient condition for
+// data-race freedom). Natively f runs in four goroutines at once, so that `go test -race`
+// confirms the race.
+func Concurrently(f func()) {
+	var wg sync.WaitGroup
+	for i := 0; i < 4; i++ {
+		wg.Add(1)
+		go func() {
+			defer wg.Done()
+			f()
+		}()
+	}
+	wg.Wait()
 }
 
 // Epoch starts a new allocation epoch and returns its number. Objects
